@@ -181,13 +181,37 @@ def _guards(F, conds, st, keep=()):
             out.append(g)
             continue
         gp = F.pos.get(id(g[3]), 0)
-        toks = F.expand(g[1], gp, keep=keep)
+        toks = _checkflag(F.expand(g[1], gp, keep=keep))
         toks = tuple(t for j, t in enumerate(toks) if not (t == "++" and j + 1 < len(toks) and cstmt.IDENT.match(toks[j + 1])
                                                             and not (j and (cstmt.IDENT.match(toks[j - 1]) or toks[j - 1] in (")", "]")))))
         names = {t for t in toks if cstmt.IDENT.match(t)}
         stale = any(gp < i < sp for nm in names for i, op, rhs, decl in F.defs.get(nm, ())) or any(F.pos.get(id(lp), 0) > gp and cstmt.written(lp) & names for lp in loops)
         if not stale:
             out.append((g[0], toks, g[2], g[3]))
+    return out
+
+
+def _checkflag(toks):
+    """`CheckFlag(&x, name, 1, file)` (this file's own helper) is NAUNET_FAIL exactly when x < 0"""
+    toks = list(toks)
+    out = []
+    i = 0
+    while i < len(toks):
+        if toks[i] == "CheckFlag" and toks[i + 1:i + 3] == ["(", "&"] and i + 3 < len(toks) and cstmt.IDENT.match(toks[i + 3]):
+            d, j = 0, i + 1
+            while j < len(toks):
+                d += toks[j] == "("
+                d -= toks[j] == ")"
+                if d == 0:
+                    break
+                j += 1
+            args = cstmt._top_split(toks[i + 2:j], (",",))
+            if len(args) == 4 and args[0] == ["&", toks[i + 3]] and args[2] == ["1"]:
+                out += ["(", "(", toks[i + 3], "<", "0", ")", "?", "NAUNET_FAIL", ":", "NAUNET_SUCCESS", ")"]
+                i = j + 1
+                continue
+        out.append(toks[i])
+        i += 1
     return out
 
 
@@ -309,7 +333,7 @@ def _r3_ladder(ctx, label, F, FLAG, AB, DT, T0):
                 levels.append(x)
                 x += 1
     if levels is None:
-        ctx.unrec("R3", f"{label}:five levels", where, f"cannot enumerate the levels of `{cstmt.txt(loop[1])}; {cstmt.txt(loop[2])}; {cstmt.txt(loop[3]) if loop[0] == 'for' else ''}`")
+        ctx.unrec("R3", f"{label}:five levels", where, "cannot enumerate the levels of `" + ("; ".join(cstmt.txt(x) for x in loop[1:4]) if loop[0] == "for" else "while (" + cstmt.txt(loop[1]) + ")") + "`")
         return
     LV = lv[0]
     if levels == [1, 2, 3, 4, 5]:
@@ -395,6 +419,17 @@ def _r3_ladder(ctx, label, F, FLAG, AB, DT, T0):
     ctx.check(not others, "R3", f"{label}:other flags fail", where, "any other negative flag leaves with NAUNET_FAIL", expected="NAUNET_FAIL for every flag outside -1..-4, -6",
               found=f"{others} go on integrating")
 
+    def G_in(state, fin):
+        """G in the state `state` (function entry / level head); constants of the level that the start of the level defines
+        (`nsubsteps = 10 * level`) are taken from there"""
+        extra = {k: e for k, e in fin.s.items() if k not in state.s}
+        for k, e in extra.items():
+            if k in Gt and ("__head" in e or "__entry" in e):
+                return f"{k}{cstmt.OPAQUE}"
+        tmp = state.clone()
+        tmp.s = {**extra, **state.s}
+        return tmp.subst(Gt)
+
     def verdict(key, pairs, okmsg, badmsg, expected):
         vals = [cstmt.same_value(a, b) if kind == "scalar" else (None if cstmt.OPAQUE in a + b else a == b) for kind, a, b in pairs]
         found = "; ".join(f"{a}  vs  {b}" for kind, a, b in pairs)[:300]
@@ -409,7 +444,7 @@ def _r3_ladder(ctx, label, F, FLAG, AB, DT, T0):
             continue
         pre, hs, fin = outcome[v][1]
         verdict(f"{label}:recoverable branch",
-                [("scalar", fin.subst(Gt), f"({hs.subst(Gt)}) - ({hs.expr(T0)})"), ("array", fin.a.get(AB, AB), hs.a.get(AB, AB))],
+                [("scalar", fin.subst(Gt), f"({G_in(hs, fin)}) - ({hs.expr(T0)})"), ("array", fin.a.get(AB, AB), hs.a.get(AB, AB))],
                 f"keeps the reached state and the time still to integrate ({DT} <- {DT} - {T0})",
                 f"after a recoverable flag the level does not integrate (time left) - (time reached {T0}) from the state reached: the interval is over- or under-run while success is returned",
                 f"{AB} as reached; {DT} - {T0} still to integrate")
@@ -417,12 +452,12 @@ def _r3_ladder(ctx, label, F, FLAG, AB, DT, T0):
     if outcome[-6][0] == "reach":
         pre, hs, fin = outcome[-6][1]
         verdict(f"{label}:reset branch",
-                [("scalar", fin.subst(Gt), pre.subst(Gt)), ("array", fin.a.get(AB, AB), "ab_init_")],
+                [("scalar", fin.subst(Gt), G_in(pre, fin)), ("array", fin.a.get(AB, AB), "ab_init_")],
                 "restores the initial state and the full interval",
                 "after the reset flag the level does not integrate the full interval from ab_init_ (a shortened / stale interval is restored, or the state is not the initial one): "
                 "part of the interval is skipped while success is returned",
                 "ab_init_; the whole interval as given at entry")
-        verdict(f"{label}:last sub-step reaches dt", [("scalar", pre.subst(Gt), DT + "__entry")],
+        verdict(f"{label}:last sub-step reaches dt", [("scalar", G_in(pre, fin), DT + "__entry")],
                 f"with the last step the target canonicalises to {DT} (the level integrates the whole remaining time)",
                 f"the last sub-step of a level does not end at the time still to integrate", DT)
     for v in reach:
@@ -702,6 +737,7 @@ BENIGN = [
         {"file": CV, "old": "            dt -= t0;\n", "new": ""},
         {"file": CV, "old": "            dt = dt_init;\n", "new": ""},
         {"file": CV, "old": "        // Reset initial conditions\n        t0 = 0.0;", "new": "        dt = (cvflag == -6) ? dt_init : dt - t0;\n        // Reset initial conditions\n        t0 = 0.0;"}]},
+    {"name": "substep-bound-spelt-out", "file": CV, "old": "step < nsubsteps + 1; step++", "new": "step <= 10 * level; step++"},
     {"name": "reinit-literal-zero", "file": CV, "old": "        cvflag = CVodeReInit(cv_mem_, t0, cv_y_);", "new": "        cvflag = CVodeReInit(cv_mem_, 0.0, cv_y_);"},
     {"name": "observer-counts-in-the-test", "file": ODE, "old": "    step_ += 1;\n    time_ = t;\n    if (step_ > mxsteps_) {", "new": "    time_ = t;\n    if (++step_ > mxsteps_) {"},
     {"name": "observer-early-return", "file": ODE, "old": "    if (step_ > mxsteps_) {\n        char err[70];", "new": "    if (mxsteps_ >= step_) return;\n    {\n        char err[70];"},
